@@ -1,463 +1,97 @@
-import DadiVerif.Model.Fold
-import Mathlib.Algebra.BigOperators.Ring.Finset
-import Mathlib.Algebra.BigOperators.Intervals
-import Mathlib.Algebra.BigOperators.Field
-import Mathlib.Algebra.Order.Field.Rat
-import Mathlib.Tactic.FieldSimp
-import Mathlib.Tactic.Ring
-import Mathlib.Tactic.Linarith
-import Mathlib.Tactic.Push
+import DadiVerif.Lemmas.FoldCore
 /-!
-Helper lemmas for C09.
+C09's fold lemmas under their original names, for C11's `Lemmas/LikFold.lean` / `LikFoldReal.lean` / `Props/C11.lean`
+(`foldOut_x`, `foldOut_m`, `foldSpec_eq`, …).
 
-Part A: the *generated* pointwise programs of `Spectrum.fold` / `Spectrum.unfold`
-(Generated/Fold.lean) equal the closed forms of the property statement, over an abstract index
-type with local hypotheses at one index (`mirror (mirror i) = i`, `total (mirror i) = T − total i`,
-`total i ≤ T`).  Part B: the flat C-order instance satisfies these hypotheses (the only place
-with index arithmetic).  Part C: sums over `List.range` as `Finset` sums, reflection.
+Everything that does not depend on what tools/gen_Fold.py currently generates lives in `Lemmas/FoldCore.lean`
+(closed forms `sfold` / `fo`, the flat C-order instance, sums, the parametrised model lemmas `foldOut_x_of`, …).  This file
+only discharges the program hypotheses of those lemmas (`FoldDataOK`, `FoldMaskOK`, `UnfoldDataOK`, `UnfoldMaskOK`, `GuardsOK`)
+for the current generated definitions — with the same proof scripts as `C09_fold_program`, `C09_fold_mask_program`, … of
+Props/C09.lean: the generated tactics `fold_program_unfold` / `unfold_program_unfold` unfold whatever intermediate definitions
+the translator emitted, so no intermediate name occurs here either.  Props/C09.lean does NOT import this file (it proves the
+program theorems itself, so that a source edit breaks exactly the theorems it falsifies).
 -/
+set_option linter.unusedSimpArgs false
+set_option linter.unusedTactic false
+set_option linter.unreachableTactic false
 namespace DadiVerif
 namespace Fold
 open Gen.Fold Finset
 
-/-! ### Part A — generated programs = closed forms -/
 section pointwise
-variable {ι : Type} (mirror : ι → ι) (total : ι → ℕ) (T : ℕ) (x : ι → ℚ) (m : ι → Bool)
-
-/-- closed form of the folded data -/
-def sfold (i : ι) : ℚ :=
-  if 2 * total i > T then 0
-  else if 2 * total i = T then (x i + x (mirror i)) / 2
-  else x i + x (mirror i)
-
-/-- entry is "folded out" (its minor-allele mirror is kept instead) -/
-def fo (i : ι) : Bool := decide (2 * total i > T)
-
-theorem whereFoldedOut_eq (i : ι) : fold_where_folded_out_1 mirror total T x m i = fo total T i := by
-  unfold fold_where_folded_out_1 fo
-  congr 1
-  apply propext
-  constructor <;> intro h <;> omega
-
-theorem unfold_whereFoldedOut_eq (i : ι) : unfold_where_folded_out_1 mirror total T x m i = fo total T i := by
-  unfold unfold_where_folded_out_1 fo
-  congr 1
-  apply propext
-  constructor <;> intro h <;> omega
-
-theorem whereAmbiguous_eq (i : ι) :
-    fold_where_ambiguous_1 mirror total T x m i = decide (2 * total i = T) := by
-  unfold fold_where_ambiguous_1
-  rw [Bool.eq_iff_iff]
-  simp only [beq_iff_eq, decide_eq_true_eq]
-  constructor
-  · intro h
-    have h2 : (2 : ℚ) * (total i : ℚ) = (T : ℚ) := by rw [h]; ring
-    exact_mod_cast h2
-  · intro h
-    have h2 : (2 : ℚ) * (total i : ℚ) = (T : ℚ) := by exact_mod_cast h
-    rw [← h2]; ring
-
-variable {mirror total T}
-
-/-- local hypotheses at index `i` -/
-structure Loc (mirror : ι → ι) (total : ι → ℕ) (T : ℕ) (i : ι) : Prop where
-  invol : mirror (mirror i) = i
-  tot   : total (mirror i) = T - total i
-  le    : total i ≤ T
-
-theorem Loc.mir {i : ι} (h : Loc mirror total T i) : Loc mirror total T (mirror i) where
-  invol := by rw [h.invol]
-  tot := by rw [h.invol, h.tot]; have := h.le; omega
-  le := by rw [h.tot]; omega
+variable {ι : Type} {mirror : ι → ι} {total : ι → ℕ} {T : ℕ} (x : ι → ℚ) (m : ι → Bool)
 
 /-- the generated program of `Spectrum.fold` computes the closed form -/
 theorem fold_outData_eq {i : ι} (h : Loc mirror total T i) :
     fold_outData mirror total T x m i = sfold mirror total T x i := by
-  have h1 := h.tot; have h2 := h.le
-  unfold fold_outData fold_folded_3 fold_folded_2 fold_folded_1 fold_reversed_1 fold_ambiguous_1 sfold
-  simp only [whereFoldedOut_eq, whereAmbiguous_eq, fo, decide_eq_true_eq]
+  have h1 := h.tot; have h2 := h.le; have h3 := h.invol
+  fold_program_unfold
+  simp only [sfold, decide_eq_true_eq, beq_iff_eq, cast_eq_half_iff, h3]
   split_ifs <;> first | (exfalso; omega) | ring
 
 /-- the generated mask program of `Spectrum.fold` (before corner masking) -/
 theorem fold_outMask_eq (i : ι) :
     fold_outMask mirror total T x m i = (m i || m (mirror i) || fo total T i) := by
-  unfold fold_outMask fold_final_mask_2 fold_final_mask_1
-  rw [whereFoldedOut_eq]
+  fold_program_unfold
+  simp only [fo, decide_gt_half]
+  first
+    | done
+    | (cases m i <;> cases m (mirror i) <;> cases decide (2 * total i > T) <;> cases decide (2 * total (mirror i) > T) <;> rfl)
 
 theorem unfold_outData_eq (i : ι) :
     unfold_outData mirror total T x m i = (x i + x (mirror i)) / 2 := by
-  unfold unfold_outData unfold_newdata_1 unfold_reversed_data_1; rfl
+  unfold_program_unfold
+  first | done | ring
 
 theorem unfold_outMask_eq (i : ι) :
     unfold_outMask mirror total T x m i
       = ((m i ^^ fo total T i) || (m (mirror i) ^^ fo total T (mirror i))) := by
-  unfold unfold_outMask unfold_newmask_2 unfold_newmask_1
-  simp only [unfold_whereFoldedOut_eq]
-
-/-- an entry and its mirror are never both folded out -/
-theorem fo_not_both {i : ι} (h : Loc mirror total T i) : ¬ (fo total T i = true ∧ fo total T (mirror i) = true) := by
-  have h1 := h.tot; have h2 := h.le
-  unfold fo; simp only [decide_eq_true_eq]; omega
-
-theorem sfold_mirror_arg {i : ι} (h : Loc mirror total T i) :
-    sfold mirror total T (fun j => x (mirror j)) i = sfold mirror total T x i := by
-  unfold sfold; simp only [h.invol]; split_ifs <;> ring
-
-/-- fold ∘ unfold ∘ fold = fold on the data (closed forms) -/
-theorem sfold_unfold_sfold {i : ι} (h : Loc mirror total T i) :
-    sfold mirror total T (fun j => (sfold mirror total T x j + sfold mirror total T x (mirror j)) / 2) i
-      = sfold mirror total T x i := by
-  have hm := h.invol; have h1 := h.tot; have h2 := h.le
-  have h3 := h.mir.tot; have h4 := h.mir.le
-  unfold sfold
-  simp only [hm]
-  split_ifs <;> first | (exfalso; omega) | ring
-
-/-- mask algebra of fold ∘ unfold ∘ fold, corner masking included (`c` = corner indicator, mirror-symmetric) -/
-theorem mask_fuf {i : ι} (h : Loc mirror total T i) (c : ι → Bool) (hc : c (mirror i) = c i) :
-    let M : ι → Bool := fun j => m j || m (mirror j) || fo total T j || c j
-    let U : ι → Bool := fun j => (M j ^^ fo total T j) || (M (mirror j) ^^ fo total T (mirror j)) || c j
-    (U i || U (mirror i) || fo total T i || c i) = M i := by
-  intro M U
-  have hnb := fo_not_both h
-  simp only [M, U, h.invol, hc]
-  cases m i <;> cases m (mirror i) <;> cases c i <;> cases hf : fo total T i <;>
-    cases hg : fo total T (mirror i) <;> simp_all
-
-/-- coefficient form used for the total -/
-def coef (total : ι → ℕ) (T : ℕ) (i : ι) : ℚ :=
-  if 2 * total i > T then 0 else if 2 * total i = T then 1/2 else 1
-
-theorem sfold_coef (i : ι) :
-    sfold mirror total T x i = coef total T i * x i + coef total T i * x (mirror i) := by
-  unfold sfold coef; split_ifs <;> ring
-
-theorem coef_add {i : ι} (h : Loc mirror total T i) : coef total T i + coef total T (mirror i) = 1 := by
-  have h1 := h.tot; have h2 := h.le
-  unfold coef
-  split_ifs <;> first | (exfalso; omega) | norm_num
+  unfold_program_unfold
+  simp only [fo, decide_gt_half]
+  first
+    | done
+    | (cases m i <;> cases m (mirror i) <;> cases decide (2 * total i > T) <;> cases decide (2 * total (mirror i) > T) <;> rfl)
 
 end pointwise
 
-
-/-! ### Part B — the flat C-order instance (the only index arithmetic) -/
-
-theorem mirrorFlat_lt {N k : ℕ} (h : k < N) : mirrorFlat N k < N := by unfold mirrorFlat; omega
-theorem mirrorFlat_invol {N k : ℕ} (h : k < N) : mirrorFlat N (mirrorFlat N k) = k := by unfold mirrorFlat; omega
-
-theorem prodL_pos_of_lt {shape : List ℕ} {k : ℕ} (h : k < prodL shape) : 0 < prodL shape := by omega
-
-/-- digits of `N-1-k`: quotient and remainder by the stride `P` -/
-theorem reflect_divmod (s P k : ℕ) (hP : 0 < P) (hk : k < s * P) :
-    (s * P - 1 - k) / P = s - 1 - k / P ∧ (s * P - 1 - k) % P = P - 1 - k % P := by
-  have hq : k / P < s := (Nat.div_lt_iff_lt_mul hP).mpr hk
-  have hr : k % P < P := Nat.mod_lt _ hP
-  have hk' : P * (k / P) + k % P = k := Nat.div_add_mod k P
-  obtain ⟨e, he⟩ : ∃ e, s = k / P + 1 + e := ⟨s - 1 - k / P, by omega⟩
-  rw [Nat.div_mod_unique hP]
-  refine ⟨?_, by omega⟩
-  have e1 : s - 1 - k / P = e := by omega
-  rw [e1]
-  have e2 : s * P = P * (k / P) + P + P * e := by rw [he]; ring
-  omega
-
-/-- reversing the flat array reverses every axis of the multi-index -/
-theorem unflat_mirror : ∀ (shape : List ℕ) (k : ℕ), k < prodL shape →
-    unflat shape (mirrorFlat (prodL shape) k) = mirrorIdx shape (unflat shape k)
-  | [], _, _ => rfl
-  | s :: ss, k, h => by
-      have hP : 0 < prodL ss := by
-        rcases Nat.eq_zero_or_pos (prodL ss) with h0 | h0
-        · simp [prodL, h0] at h
-        · exact h0
-      have hk : k < s * prodL ss := h
-      obtain ⟨k1, k2⟩ := reflect_divmod s (prodL ss) k hP hk
-      have ih := unflat_mirror ss (k % prodL ss) (Nat.mod_lt _ hP)
-      unfold mirrorFlat at ih ⊢
-      simp only [unflat, prodL, mirrorIdx]
-      rw [k1, k2, ih]
-
-/-- every component of `unflat shape k` is in range -/
-theorem unflat_lt : ∀ (shape : List ℕ) (k : ℕ), k < prodL shape →
-    List.Forall₂ (fun i s => i < s) (unflat shape k) shape
-  | [], _, _ => List.Forall₂.nil
-  | s :: ss, k, h => by
-      have hP : 0 < prodL ss := by
-        rcases Nat.eq_zero_or_pos (prodL ss) with h0 | h0
-        · simp [prodL, h0] at h
-        · exact h0
-      have hk : k < s * prodL ss := h
-      simp only [unflat]
-      exact List.Forall₂.cons ((Nat.div_lt_iff_lt_mul hP).mpr hk) (unflat_lt ss _ (Nat.mod_lt _ hP))
-
-theorem totalSamples_cons (s : ℕ) (ss : List ℕ) : totalSamples (s :: ss) = (s - 1) + totalSamples ss := by
-  simp [totalSamples]
-
-theorem sum_mirrorIdx {idx shape : List ℕ} (h : List.Forall₂ (fun i s => i < s) idx shape) :
-    (mirrorIdx shape idx).sum + idx.sum = totalSamples shape := by
-  induction h with
-  | nil => simp [mirrorIdx, totalSamples]
-  | cons hlt _ ih =>
-    simp only [mirrorIdx, List.sum_cons, totalSamples_cons]
-    omega
-
-/-- total of the mirror entry + total of the entry = total sample size -/
-theorem totalFlat_mirror {shape : List ℕ} {k : ℕ} (h : k < prodL shape) :
-    totalFlat shape (mirrorFlat (prodL shape) k) + totalFlat shape k = totalSamples shape := by
-  unfold totalFlat
-  rw [unflat_mirror shape k h]
-  exact sum_mirrorIdx (unflat_lt shape k h)
-
-/-- the flat instance satisfies the local hypotheses of Part A at every index in range -/
-theorem loc_flat {shape : List ℕ} {k : ℕ} (h : k < prodL shape) :
-    Loc (mirrorFlat (prodL shape)) (totalFlat shape) (totalSamples shape) k where
-  invol := mirrorFlat_invol h
-  tot := by have := totalFlat_mirror h; omega
-  le := by have := totalFlat_mirror h; omega
-
-/-! ### arrays built by `tabulate` -/
-theorem tabulate_size {α : Type} (N : ℕ) (f : ℕ → α) : (tabulate N f).size = N := by
-  simp [tabulate]
-
-theorem tabulate_getD {α : Type} (N : ℕ) (f : ℕ → α) (d : α) {k : ℕ} (h : k < N) :
-    (tabulate N f).getD k d = f k := by
-  simp [tabulate, Array.getD, h]
-
-theorem tabulate_congr {α : Type} (N : ℕ) (f g : ℕ → α) (h : ∀ k < N, f k = g k) :
-    tabulate N f = tabulate N g := by
-  unfold tabulate
-  congr 1
-  funext k
-  exact h k.val k.isLt
-
-/-! ### Part C — sums over `range N` with the reflection `k ↦ N-1-k` -/
-
-theorem foldl_add_eq_sum (f : ℕ → ℚ) (n : ℕ) :
-    (List.range n).foldl (fun acc k => acc + f k) 0 = ∑ k ∈ range n, f k := by
-  induction n with
-  | zero => simp
-  | succ n ih => rw [List.range_succ, List.foldl_append, ih, Finset.sum_range_succ]; simp
-
-theorem sum_reflect (f : ℕ → ℚ) (N : ℕ) : ∑ k ∈ range N, f (mirrorFlat N k) = ∑ k ∈ range N, f k := by
-  unfold mirrorFlat
-  exact Finset.sum_range_reflect f N
-
-/-- folding conserves the total over `range N` -/
-theorem sfold_total (N : ℕ) (total : ℕ → ℕ) (T : ℕ) (x : ℕ → ℚ)
-    (h : ∀ k < N, Loc (mirrorFlat N) total T k) :
-    ∑ k ∈ range N, sfold (mirrorFlat N) total T x k = ∑ k ∈ range N, x k := by
-  simp only [sfold_coef, Finset.sum_add_distrib]
-  have e : ∑ k ∈ range N, coef total T k * x (mirrorFlat N k)
-      = ∑ k ∈ range N, coef total T (mirrorFlat N k) * x k := by
-    rw [← sum_reflect (fun k => coef total T (mirrorFlat N k) * x k) N]
-    refine Finset.sum_congr rfl (fun k hk => ?_)
-    rw [(h k (mem_range.mp hk)).invol]
-  rw [e, ← Finset.sum_add_distrib]
-  refine Finset.sum_congr rfl (fun k hk => ?_)
-  rw [← add_mul, coef_add (h k (mem_range.mp hk)), one_mul]
-
-
-/-! ### Part D — the executable model in closed form -/
-
-theorem sfold_indicator {ι : Type} {mirror : ι → ι} {total : ι → ℕ} {T : ℕ} (x : ι → ℚ) (u : ι → Bool) {i : ι}
-    (hu : u (mirror i) = u i) :
-    sfold mirror total T (fun j => if u j then x j else 0) i = if u i then sfold mirror total T x i else 0 := by
-  unfold sfold
-  simp only [hu]
-  split_ifs <;> simp
-
-theorem sfold_congr {ι : Type} {mirror : ι → ι} {total : ι → ℕ} {T : ℕ} {x y : ι → ℚ} {i : ι}
-    (h1 : x i = y i) (h2 : x (mirror i) = y (mirror i)) :
-    sfold mirror total T x i = sfold mirror total T y i := by
-  unfold sfold; rw [h1, h2]
-
-theorem cornerFlat_mirror {N k : ℕ} (h : k < N) : cornerFlat N (mirrorFlat N k) = cornerFlat N k := by
-  unfold cornerFlat mirrorFlat
-  rw [Bool.eq_iff_iff]
-  simp only [Bool.or_eq_true, beq_iff_eq]
-  omega
-
-theorem spec_eq_of {A B : Spec} (hs : A.shape = B.shape) (hd : A.data = B.data) (hm : A.mask = B.mask)
-    (hf : A.folded = B.folded) (hp : A.popIds = B.popIds) : A = B := by
-  cases A; cases B; simp_all
-
-/-- abbreviations for statements: mirror index, per-entry total, total sample size of a spectrum -/
-abbrev Spec.mir (S : Spec) (k : ℕ) : ℕ := mirrorFlat S.N k
-abbrev Spec.tot (S : Spec) (k : ℕ) : ℕ := totalFlat S.shape k
-abbrev Spec.T (S : Spec) : ℕ := totalSamples S.shape
-
-theorem Spec.loc (S : Spec) {k : ℕ} (h : k < S.N) : Loc (mirrorFlat S.N) (totalFlat S.shape) (totalSamples S.shape) k :=
-  loc_flat h
-
-theorem sumData_eq (S : Spec) : sumData S = ∑ k ∈ range S.N, S.x k := foldl_add_eq_sum _ _
-theorem sumUnmasked_eq (S : Spec) : sumUnmasked S = ∑ k ∈ range S.N, (if S.m k then 0 else S.x k) :=
-  foldl_add_eq_sum _ _
-
-theorem x_of_data {A : Spec} {N : ℕ} {f : ℕ → ℚ} (hd : A.data = tabulate N f) {k : ℕ} (h : k < N) : A.x k = f k := by
-  unfold Spec.x; rw [hd, tabulate_getD _ _ _ h]
-theorem m_of_mask {A : Spec} {N : ℕ} {f : ℕ → Bool} (hd : A.mask = tabulate N f) {k : ℕ} (h : k < N) : A.m k = f k := by
-  unfold Spec.m; rw [hd, tabulate_getD _ _ _ h]
+theorem foldDataOK : FoldDataOK := fun _ _ _ x m _ h => fold_outData_eq x m h
+theorem foldMaskOK : FoldMaskOK := fun _ _ _ x m i _ => fold_outMask_eq x m i
+theorem unfoldDataOK : UnfoldDataOK := fun _ _ _ x m i _ => unfold_outData_eq x m i
+theorem unfoldMaskOK : UnfoldMaskOK := fun _ _ _ x m i _ => unfold_outMask_eq x m i
+theorem guardsOK : GuardsOK := ⟨fun _ => rfl, rfl, fun _ => rfl, rfl⟩
 
 section outs
 variable (S : Spec)
 
-theorem foldOut_N : (foldOut S).N = S.N := rfl
-theorem foldOut_data : (foldOut S).data
-    = tabulate S.N fun k => fold_outData (mirrorFlat S.N) (totalFlat S.shape) (totalSamples S.shape) S.x S.m k := rfl
-theorem foldOut_mask : (foldOut S).mask
-    = tabulate S.N fun k => fold_outMask (mirrorFlat S.N) (totalFlat S.shape) (totalSamples S.shape) S.x S.m k
-        || (fold_maskCorners && cornerFlat S.N k) := rfl
-theorem foldOut_shape : (foldOut S).shape = S.shape := rfl
 theorem foldOut_folded : (foldOut S).folded = true := rfl
 theorem foldOut_popIds : (foldOut S).popIds = S.popIds := by simp [foldOut, fold_popIdsFromSelf]
 
 theorem foldOut_x {k : ℕ} (h : k < S.N) :
-    (foldOut S).x k = sfold (mirrorFlat S.N) (totalFlat S.shape) (totalSamples S.shape) S.x k := by
-  show (tabulate S.N _).getD k _ = _
-  rw [tabulate_getD _ _ _ h]
-  exact fold_outData_eq S.x S.m (S.loc h)
+    (foldOut S).x k = sfold (mirrorFlat S.N) (totalFlat S.shape) (totalSamples S.shape) S.x k :=
+  foldOut_x_of S foldDataOK h
 
 theorem foldOut_m {k : ℕ} (h : k < S.N) :
-    (foldOut S).m k = (S.m k || S.m (mirrorFlat S.N k) || fo (totalFlat S.shape) (totalSamples S.shape) k || cornerFlat S.N k) := by
-  show (tabulate S.N _).getD k _ = _
-  rw [tabulate_getD _ _ _ h, fold_outMask_eq]
-  simp [fold_maskCorners]
+    (foldOut S).m k = (S.m k || S.m (mirrorFlat S.N k) || fo (totalFlat S.shape) (totalSamples S.shape) k || cornerFlat S.N k) :=
+  foldOut_m_of S foldMaskOK rfl h
 
-theorem unfoldOut_N : (unfoldOut S).N = S.N := rfl
 theorem unfoldOut_folded : (unfoldOut S).folded = false := rfl
 theorem unfoldOut_popIds : (unfoldOut S).popIds = S.popIds := by simp [unfoldOut, unfold_popIdsFromSelf]
 
-theorem unfoldOut_x {k : ℕ} (h : k < S.N) : (unfoldOut S).x k = (S.x k + S.x (mirrorFlat S.N k)) / 2 := by
-  show (tabulate S.N _).getD k _ = _
-  rw [tabulate_getD _ _ _ h, unfold_outData_eq]
+theorem unfoldOut_x {k : ℕ} (h : k < S.N) : (unfoldOut S).x k = (S.x k + S.x (mirrorFlat S.N k)) / 2 :=
+  unfoldOut_x_of S unfoldDataOK h
 
 theorem unfoldOut_m {k : ℕ} (h : k < S.N) :
     (unfoldOut S).m k = ((S.m k ^^ fo (totalFlat S.shape) (totalSamples S.shape) k)
       || (S.m (mirrorFlat S.N k) ^^ fo (totalFlat S.shape) (totalSamples S.shape) (mirrorFlat S.N k))
-      || cornerFlat S.N k) := by
-  show (tabulate S.N _).getD k _ = _
-  rw [tabulate_getD _ _ _ h, unfold_outMask_eq]
-  simp [unfold_maskCorners]
+      || cornerFlat S.N k) :=
+  unfoldOut_m_of S unfoldMaskOK rfl h
 
-theorem reverseSpec_N : (reverseSpec S).N = S.N := rfl
-theorem reverseSpec_x {k : ℕ} (h : k < S.N) : (reverseSpec S).x k = S.x (mirrorFlat S.N k) := by
-  show (tabulate S.N _).getD k _ = _
-  rw [tabulate_getD _ _ _ h]
-theorem reverseSpec_m {k : ℕ} (h : k < S.N) : (reverseSpec S).m k = S.m (mirrorFlat S.N k) := by
-  show (tabulate S.N _).getD k _ = _
-  rw [tabulate_getD _ _ _ h]
-
-theorem foldSpec_eq : foldSpec S = if S.folded then .raise "ValueError" else .ok (foldOut S) := by
-  unfold foldSpec fold_raises fold_raisesWhat; rfl
-theorem unfoldSpec_eq : unfoldSpec S = if S.folded then .ok (unfoldOut S) else .raise "ValueError" := by
-  unfold unfoldSpec unfold_raises unfold_raisesWhat
-  cases S.folded <;> rfl
+theorem foldSpec_eq : foldSpec S = if S.folded then .raise "ValueError" else .ok (foldOut S) :=
+  foldSpec_eq_of S guardsOK
+theorem unfoldSpec_eq : unfoldSpec S = if S.folded then .ok (unfoldOut S) else .raise "ValueError" :=
+  unfoldSpec_eq_of S guardsOK
 
 end outs
-
-/-! ### arithmetic templates -/
-
-theorem guards_not_ok {ms : List String} {name : String} {S : Spec} {o : Operand} {r : Res}
-    (h : guards ms name S o = some r) (R : Spec) : r ≠ .ok R := by
-  unfold guards at h
-  split_ifs at h <;> (cases h; intro hR; cases hR)
-
-theorem guards_none {ms : List String} {name : String} {S : Spec} {o : Operand}
-    (h : guards ms name S o = none) :
-    name ∈ ms ∧ foldingRefused o.isSpectrum S.folded o.folded = false ∧ name ∉ ndarrayLacks ∧ o.fits S.N = true := by
-  unfold guards at h
-  split_ifs at h with h1 h2 h3 h4
-  simp_all
-
-theorem arithDefined_iff {M : Method} {S : Spec} {o : Operand} :
-    arithDefined M S o = true ↔ ∀ k < S.N, (arith M (S.x k) (o.dataAt k)).isSome = true := by
-  unfold arithDefined
-  simp [List.all_eq_true]
-
-theorem binop_ok {name : String} {S : Spec} {o : Operand} {R : Spec} (h : binop name S o = .ok R) :
-    ∃ M, methodOf name = some M ∧ guards binaryMethods name S o = none ∧ arithDefined M S o = true
-      ∧ R = binOut M S o := by
-  unfold binop at h
-  split at h
-  · rename_i r hg; exact absurd h (guards_not_ok hg R)
-  · rename_i hg
-    split at h
-    · cases h
-    · rename_i M hM
-      split_ifs at h with hd
-      injection h with h
-      exact ⟨M, hM, hg, by simpa using hd, h.symm⟩
-
-theorem inplace_ok {name : String} {S : Spec} {o : Operand} {R : Spec} (h : inplace name S o = .ok R) :
-    ∃ M, methodOf name = some M ∧ guards inplaceMethods name S o = none ∧ arithDefined M S o = true
-      ∧ R = inplaceOut M S o := by
-  unfold inplace at h
-  split at h
-  · rename_i r hg; exact absurd h (guards_not_ok hg R)
-  · rename_i hg
-    split at h
-    · cases h
-    · rename_i M hM
-      split_ifs at h with h0 hd
-      injection h with h
-      exact ⟨M, hM, hg, by simpa using hd, h.symm⟩
-
-theorem binOut_x {M : Method} {S : Spec} {o : Operand} (hd : arithDefined M S o = true) {k : ℕ} (h : k < S.N) :
-    arith M (S.x k) (o.dataAt k) = some ((binOut M S o).x k) := by
-  have := (arithDefined_iff.mp hd) k h
-  have e : (binOut M S o).x k = (arith M (S.x k) (o.dataAt k)).getD 0 := by
-    show (tabulate S.N _).getD k _ = _
-    rw [tabulate_getD _ _ _ h]
-  obtain ⟨v, hv⟩ := Option.isSome_iff_exists.mp this
-  rw [e, hv]; rfl
-
-theorem binOut_m {M : Method} {S : Spec} {o : Operand} {k : ℕ} (h : k < S.N) :
-    (binOut M S o).m k = (S.m k || o.maskAt k) := by
-  show (tabulate S.N _).getD k _ = _
-  rw [tabulate_getD _ _ _ h]
-  cases o <;> simp [binopMaskCorners, Operand.isMasked, Operand.maskAt]
-
-theorem inplaceOut_x {M : Method} {S : Spec} {o : Operand} (hd : arithDefined M S o = true) {k : ℕ} (h : k < S.N) :
-    arith M (S.x k) (o.dataAt k) = some ((inplaceOut M S o).x k) := by
-  have := (arithDefined_iff.mp hd) k h
-  have e : (inplaceOut M S o).x k = (arith M (S.x k) (o.dataAt k)).getD 0 := by
-    show (tabulate S.N _).getD k _ = _
-    rw [tabulate_getD _ _ _ h]
-  obtain ⟨v, hv⟩ := Option.isSome_iff_exists.mp this
-  rw [e, hv]; rfl
-
-theorem inplaceOut_m {M : Method} {S : Spec} {o : Operand} {k : ℕ} (h : k < S.N) :
-    (inplaceOut M S o).m k = (S.m k || o.maskAt k) := by
-  show (tabulate S.N _).getD k _ = _
-  rw [tabulate_getD _ _ _ h]
-  cases o <;> simp [Operand.isMasked, Operand.maskAt]
-
-theorem binopPopIds_eq (a b : Option (List String)) : binopPopIds a b = a.orElse fun _ => b := by
-  unfold binopPopIds
-  cases a <;> cases b <;> simp
-
-
-theorem binop_eq_ok {name : String} {S : Spec} {o : Operand} {M : Method} (h1 : name ∈ binaryMethods)
-    (h2 : foldingRefused o.isSpectrum S.folded o.folded = false) (h3 : name ∉ ndarrayLacks)
-    (h4 : o.fits S.N = true) (h5 : methodOf name = some M) (h6 : arithDefined M S o = true) :
-    binop name S o = .ok (binOut M S o) := by
-  unfold binop guards
-  simp [h1, h2, h3, h4, h5, h6]
-
-theorem inplace_eq_ok {name : String} {S : Spec} {o : Operand} {M : Method} (h1 : name ∈ inplaceMethods)
-    (h2 : foldingRefused o.isSpectrum S.folded o.folded = false) (h3 : name ∉ ndarrayLacks)
-    (h4 : o.fits S.N = true) (h5 : methodOf name = some M) (h6 : arithDefined M S o = true) :
-    inplace name S o = .ok (inplaceOut M S o) := by
-  unfold inplace guards
-  simp [h1, h2, h3, h4, h5, h6, inplaceShapeOk]
-
-/-- sums, differences and products are always exact -/
-theorem arithDefined_ring (M : Method) (A : Spec) (o : Operand) (hM : M.op = .add ∨ M.op = .sub ∨ M.op = .mul) :
-    arithDefined M A o = true := by
-  rw [arithDefined_iff]
-  intro k _
-  rcases hM with h | h | h <;> simp [arith, h]
 
 end Fold
 end DadiVerif
